@@ -24,6 +24,7 @@ type c16case struct {
 	Layout    string `json:"layout"`   // "" = unset; "<default>" = SetTimeFormat() without argument
 	Format    string `json:"format"`
 	Prior     string `json:"prior_record,omitempty"` // "" | utc-logger | local-layout-logger : a record emitted just before by another logger
+	Attr      string `json:"attr,omitempty"`         // "time" = the record carries an attribute named time (another instant) and one named t
 	FlagPath  string `json:"flag_path,omitempty"`    // "" = SetFlags | "scope" = a SaveFlagsAndMod scope toggling the date/time flags has just ended | "late" = the flags are set after the loggers were created under the opposite flags
 	Sec       int64  `json:"unix_sec,omitempty"`     // used instead of Instant for years outside 0..9999
 	Nsec      int64  `json:"unix_nsec,omitempty"`
@@ -52,6 +53,8 @@ func c16loc(zone string) *time.Location {
 	switch {
 	case zone == "UTC":
 		return time.UTC
+	case zone == "GMT0":
+		return time.FixedZone("GMT", 0) // offset zero, but not UTC: a layout with the zone abbreviation tells them apart
 	case strings.HasPrefix(zone, "+") || strings.HasPrefix(zone, "-"):
 		var h, m int
 		fmt.Sscanf(zone[1:], "%d:%d", &h, &m)
@@ -196,9 +199,15 @@ func c16eval(cas c16case) *Violation {
 	if cas.FlagPath == "late" {
 		setFlagsVia(fl, caseSeq/2+1)
 	}
-	pan := catch(func() { l.WriteThru(bg, slog.InfoLevel, inst, 0, "m", nil) })
+	var attrs slog.Attrs
+	if cas.Attr == "time" {
+		// attributes named like the timestamp field: the record's own instant is still the one it was given
+		other := time.Date(2001, 2, 3, 4, 5, 6, 7, time.FixedZone("", -3*3600))
+		attrs = slog.Attrs{slog.NewAttr("t", other), slog.NewAttr("time", other), slog.NewAttr("z", 1)}
+	}
+	pan := catch(func() { l.WriteThru(bg, slog.InfoLevel, inst, 0, "m", attrs) })
 	mk := func(clause, detail string) *Violation {
-		sig := fmt.Sprintf("C16|%s|format=%s|flags=%d|localtime=%v|utc=%s|layout=%q|zone=%s|prior=%s|flags-via=%s", clause, cas.Format, cas.Flags, cas.LocalTime, cas.UTCMode, cas.Layout, cas.Zone, cas.Prior, cas.FlagPath)
+		sig := fmt.Sprintf("C16|%s|format=%s|flags=%d|localtime=%v|utc=%s|layout=%q|zone=%s|prior=%s|flags-via=%s%s", clause, cas.Format, cas.Flags, cas.LocalTime, cas.UTCMode, cas.Layout, cas.Zone, cas.Prior, cas.FlagPath, map[bool]string{true: "|attr=" + cas.Attr}[cas.Attr != ""])
 		return mkViolation(sig, clause, detail, cas)
 	}
 	if pan != "" {
@@ -211,7 +220,7 @@ func c16eval(cas c16case) *Violation {
 	var text string
 	switch cas.Format {
 	case "json":
-		obj, err := jsonx.DecodeLine([]byte(p))
+		obj, err := jsonx.DecodeLineKeepDuplicates([]byte(p)) // (an attribute may be named time as well: the timestamp is the first member)
 		if err != nil {
 			return mk("decodable", fmt.Sprintf("%v: %.200q", err, p))
 		}
@@ -248,6 +257,10 @@ func c16eval(cas c16case) *Violation {
 				c16last = text
 				return nil // package time cannot parse years outside 0..9999 back: the text was compared with Format
 			}
+			if strings.Contains(lay, "MST") {
+				c16last = text
+				return nil // package time cannot parse the abbreviation of an unnamed zone back: the text was compared with Format
+			}
 			// round trip: parsing the text with the layout gives back the instant to the layout's precision
 			back, err := time.Parse(lay, text)
 			if err != nil {
@@ -266,7 +279,7 @@ func c16eval(cas c16case) *Violation {
 var c16last string
 
 func c16cases(thorough bool, emit func(c16case)) {
-	zones := []string{"UTC", "+05:30", "-08:00", "+14:00", "America/New_York", "Europe/Lisbon", "-03:30", "-09:30", "-00:44"}
+	zones := []string{"UTC", "+05:30", "-08:00", "+14:00", "America/New_York", "Europe/Lisbon", "-03:30", "-09:30", "-00:44", "GMT0"}
 	var instants []time.Time
 	for _, y := range []int{1, 1970, 2024, 9999, 12345, -50} {
 		for _, md := range [][2]int{{1, 1}, {2, 29}, {12, 31}} {
@@ -282,7 +295,7 @@ func c16cases(thorough bool, emit func(c16case)) {
 		t, _ := time.Parse(time.RFC3339Nano, s)
 		instants = append(instants, t)
 	}
-	layouts := []string{"", "<default>", time.RFC3339Nano, time.RFC1123Z, time.Kitchen, time.StampMicro, "2006-01-02 15:04:05.000", "Jan _2 2006 15:04:05.000000000 -0700"}
+	layouts := []string{"", "<default>", time.RFC3339Nano, time.RFC1123Z, time.Kitchen, time.StampMicro, "2006-01-02 15:04:05.000", "Jan _2 2006 15:04:05.000000000 -0700", time.RFC1123}
 	for ii, t := range instants {
 		for zi, z := range zones {
 			if !thorough && (ii+zi)%3 != 0 {
@@ -317,7 +330,9 @@ func c16cases(thorough bool, emit func(c16case)) {
 									if !thorough {
 										sel = j / 3
 									}
-									switch sel % 6 {
+									switch sel % 7 {
+									case 6:
+										v.Attr = "time"
 									case 5:
 										v.FlagPath = "late"
 									case 4:
